@@ -30,6 +30,7 @@ const (
 	nsFA7  = "C03-A7"  // round entrance for a view the mirror left / not reached
 	nsFA7b = "C03-A7b" // round entrance above the round in which the mirror committed that height (WrongCommit)
 	nsFA15 = "C03-A15" // round entered with majority power present but no majority target
+	nsFA16 = "C03-A16" // mirror commits the next height while its machine is stuck above the committing round
 	nsFA17 = "C03-A17" // mirror fed next-height traffic while state machine is still on the committing height
 	nsFA21 = "C03-A21" // StandardRoundTimer start/cancel race (scheduler dependent, cannot be excluded)
 	nsFR1  = "C03-R1"  // restart before the first round change: zero Genesis handed to the state machine
@@ -345,8 +346,10 @@ func (x *nsExec) admitVote(n *nsNode, p nsPos, kind int, h uint64, r uint32, tar
 			if kind == nsKindPrecommit && nilDone && nsEx(nsFA7) {
 				return nsFA7 // the mirror would leave the round the machine has yet to enter
 			}
-			if kind == nsKindPrecommit && target != "" && pc.byHash[target] >= maj && nsEx(nsFA17) {
-				return nsFA17 // the mirror would commit a second height ahead of its machine
+			if kind == nsKindPrecommit && target != "" && pc.byHash[target] >= maj {
+				if id := commitAhead(p); id != "" {
+					return id // the mirror would commit a second height ahead of its machine
+				}
 			}
 		}
 		if !lagging && p.SR > p.VR && kind == nsKindPrecommit && target != "" && pc.byHash[target] >= maj && nsEx(nsFS2) {
@@ -379,6 +382,21 @@ func (x *nsExec) admitVote(n *nsNode, p nsPos, kind int, h uint64, r uint32, tar
 	return ""
 }
 
+// commitAhead names the rule that forbids a delivery which makes the mirror commit its
+// voting height while the machine is still on the committing height.
+func commitAhead(p nsPos) string {
+	if p.SH >= p.VH {
+		return ""
+	}
+	if p.SH == p.CH && p.SR > p.CR && nsEx(nsFA16) {
+		return nsFA16 // the machine is not in commit wait: it is stuck in a later round of that height
+	}
+	if nsEx(nsFA17) {
+		return nsFA17
+	}
+	return ""
+}
+
 // admitPH returns the finding id that forbids the delivery, or "" and whether
 // the precommits of the header's previous-commit proof must be offered first.
 func (x *nsExec) admitPH(n *nsNode, p nsPos, ph tmconsensus.ProposedHeader) (string, bool) {
@@ -397,8 +415,21 @@ func (x *nsExec) admitPH(n *nsNode, p nsPos, ph tmconsensus.ProposedHeader) (str
 		if ph.Header.PrevCommitProof.Round == p.VR+1 && nsEx(nsFA5) {
 			return nsFA5, false
 		}
-		if p.SH < p.VH && nsEx(nsFA17) {
-			return nsFA17, false // would commit a second height ahead of the machine
+		if id := commitAhead(p); id != "" {
+			return id, false // would commit a second height ahead of the machine
+		}
+		if p.SH < p.VH && ph.Header.PrevCommitProof.Round == p.VR+1 && nsEx(nsFA7) {
+			// The proof's precommits make the mirror jump to its next round. Unless it can
+			// commit there at once (it holds the committed header in that round), it stays in a
+			// round above the one its machine has yet to enter.
+			phs, _, _ := x.roundState(n, p.VH, p.VR+1)
+			has := false
+			for _, k := range phs {
+				has = has || string(k.Header.Hash) == string(ph.Header.PrevBlockHash)
+			}
+			if !has {
+				return nsFA7, false
+			}
 		}
 		x.count("next-height-ph")
 		return "", false
@@ -424,8 +455,8 @@ func (x *nsExec) admitPH(n *nsNode, p nsPos, ph tmconsensus.ProposedHeader) (str
 			if p.SH == p.VH && p.SR > p.VR && nsEx(nsFS2) {
 				return nsFS2, false
 			}
-			if p.SH < p.VH && nsEx(nsFA17) {
-				return nsFA17, false
+			if id := commitAhead(p); id != "" {
+				return id, false
 			}
 		}
 	}
@@ -742,40 +773,55 @@ func (x *nsExec) restartAdmit(n *nsNode) string {
 		}
 		panic(err)
 	}
-	switch {
-	case e.H == vh:
-		// The kernel re-evaluates the stored voting and next-round votes at start-up (they may
-		// include votes that were stored as "future" before the mirror reached this height and
-		// that the live mirror never looked at): simulate that to know the voting round f the
-		// machine's entrance will meet, or that the height gets committed right away.
-		pows := x.w.powersFor(vh)
-		avail := nsSum(pows)
-		maj, min := nsMaj(avail), nsMin(avail)
-		state := func(r uint32) (nilDone, commits, present bool, pv, pc nsTally) {
-			phs, pvc, pcc := x.roundState(n, vh, r)
-			pv, pc = x.tally(pvc, pows), x.tally(pcc, pows)
-			nilDone = pc.byHash[""] >= maj || (pc.total == avail && pc.best < maj)
-			for _, ph := range phs {
-				if pc.byHash[string(ph.Header.Hash)] >= maj {
-					commits = true
+	// The kernel re-evaluates the stored voting and next-round votes at start-up (they may
+	// include votes that were stored as "future" before the mirror reached this height and
+	// that the live mirror never looked at): simulate that to know the voting round f the
+	// machine's entrance will meet, or that the height gets committed right away.
+	pows := x.w.powersFor(vh)
+	avail := nsSum(pows)
+	maj, min := nsMaj(avail), nsMin(avail)
+	state := func(r uint32) (nilDone, commits, present bool, pv, pc nsTally) {
+		phs, pvc, pcc := x.roundState(n, vh, r)
+		pv, pc = x.tally(pvc, pows), x.tally(pcc, pows)
+		nilDone = pc.byHash[""] >= maj || (pc.total == avail && pc.best < maj)
+		for _, ph := range phs {
+			if pc.byHash[string(ph.Header.Hash)] >= maj {
+				commits = true
+			}
+		}
+		present = pv.total >= min || pc.total >= min
+		return
+	}
+	f, committed := vr, false
+	if nilDone, commits, _, _, _ := state(vr); commits {
+		committed = true
+	} else if nilDone {
+		f = vr + 1
+	} else if nilDone2, commits2, present2, _, _ := state(vr + 1); present2 {
+		f = vr + 1
+		if commits2 {
+			committed = true
+		} else if nilDone2 {
+			f = vr + 2
+		}
+	}
+	if e.H < vh && !committed {
+		// The machine first replays committed heights and then enters round 0 of the voting height.
+		if f > 0 && nsEx(nsFA7) {
+			return nsFA7
+		}
+		if f == 0 {
+			_, _, _, pv, pc := state(0)
+			switch nsEntryStep(avail, pv, pc) {
+			case "pvDelay", "pcDelay":
+				if nsEx(nsFA15) {
+					return nsFA15
 				}
 			}
-			present = pv.total >= min || pc.total >= min
-			return
 		}
-		f, committed := vr, false
-		if nilDone, commits, _, _, _ := state(vr); commits {
-			committed = true
-		} else if nilDone {
-			f = vr + 1
-		} else if nilDone2, commits2, present2, _, _ := state(vr + 1); present2 {
-			f = vr + 1
-			if commits2 {
-				committed = true
-			} else if nilDone2 {
-				f = vr + 2
-			}
-		}
+	}
+	switch {
+	case e.H == vh:
 		if committed {
 			return "" // entrance meets the committing view, a replay, or (repaired) a later round of it
 		}
